@@ -33,7 +33,9 @@ PRIMITIVE = {
     "substring-before": "core::str::<impl str>::split_once",
     "substring-after": "core::str::<impl str>::split_once",
     "string-length": "<std::str::Chars<'a> as std::iter::Iterator>::count",
-    "concat": "std::string::String::push_str",
+    # concatenation in argument order: appending to one String, or collecting the converted arguments into one
+    "concat": ("std::string::String::push_str", "std::iter::Iterator::collect", "std::ops::AddAssign::add_assign",
+               "alloc::slice::<impl [T]>::concat", "std::slice::<impl [T]>::concat"),
 }
 
 # calls whose std semantics differ from XPath 1.0; none may be used on XPath values inside xml_xpath::eval
